@@ -368,7 +368,9 @@ func (c *c15Hist) pickOp() (cmd, variant string, args []string, post func()) {
 	case r < 83:
 		return "repairsnapshots", "forget", []string{"repair", "snapshots", "--forget"}, nil
 	case r < 86:
-		return "recover", "plain", []string{"recover"}, nil
+		// `recover` is deliberately NOT generated: it is not in the operation list of C15's statement
+		// (see docs/C15.md, observation on recover after an interrupted backup)
+		return "repairsnapshots", "keep", []string{"repair", "snapshots"}, nil
 	case r < 93:
 		npw := "pw" + Itoa(h.Intn(1000))
 		f := filepath.Join(c.dir, "newpw")
